@@ -39,14 +39,14 @@ def generate(rng, tier):
                         dr = rng.logu(0.02, 0.3)
                         c["xout"] = [dr * (i + 1) for i in range(len(c["xout"]))]
                         c["desc"]["fortran"] = True
-                    if rep % 4 == 2 and Y == 1:   # G(r) on a grid with negative abscissae (the transform is odd in r)
-                        c["xout"] = [(-1) ** j * (abs(v) + 0.2) for j, v in enumerate(c["xout"])]
-                        c["desc"]["negative_r"] = True
-                        c["desc"].pop("fortran", None)
                     if rep % 4 == 1:  # an integer-valued (and integer-typed) r grid
                         c["xout"] = [float(i + 1) for i in range(len(c["xout"]))]
                         c["int_dtype"] = [False, False, True]
                         c["desc"]["int_r_grid"] = True
+                        c["desc"].pop("fortran", None)
+                    if Y == 1 and (X + rep) % 2 == 0 and not c["desc"].get("int_r_grid"):   # G(r) on a grid with negative abscissae too
+                        c["xout"] = [(-1) ** (j + 1) * (1.0 + 1.7 * j + 0.1 * abs(v)) for j, v in enumerate(c["xout"])]   # the first point is negative
+                        c["desc"]["negative_r"] = True
                         c["desc"].pop("fortran", None)
                     # physical-looking S(Q): positive at Qmin
                     c["desc"]["Qmin0"] = c["xin"][0] == 0.0
